@@ -225,6 +225,9 @@ func (v *messageValidator) Validate(mesg *proto.Message) error {
 	}
 
 	mesg.DeveloperFields = mesg.DeveloperFields[:valid]
+	if len(mesg.Fields) == 0 && len(mesg.DeveloperFields) == 0 {
+		return errNoFields
+	}
 
 	return nil
 }
